@@ -41,6 +41,8 @@ func runC05(c *Ctx) {
 	locksReleased(c, pkgTransport, pkgGraphql, pkgExecutor, pkgHandler)
 	deferredReceiveCancellable(c)
 	dispatchDoneLast(c)
+	// a goroutine that writes the response is gone (or has nothing left to write) when the transport returns (C12)
+	c12WriterGoroutineBounded(c)
 }
 
 // ------------------------------------------------------------------------------------------------
